@@ -32,6 +32,7 @@ TARGETS = [
     ("fakesnow/cursor.py", "FakeSnowflakeCursor._describe_last_sql", "fakesnow.cursor.FakeSnowflakeCursor._describe_last_sql"),
     ("fakesnow/conn.py", "FakeSnowflakeConnection.commit", "fakesnow.conn.FakeSnowflakeConnection.commit"),
     ("fakesnow/conn.py", "FakeSnowflakeConnection.rollback", "fakesnow.conn.FakeSnowflakeConnection.rollback"),
+    ("fakesnow/transforms_merge.py", "merge", "fakesnow.transforms_merge.merge"),
 ]
 
 T = {cn.split("fakesnow.", 1)[1]: (rel, q, cn) for rel, q, cn in TARGETS}
